@@ -8,6 +8,9 @@
 static void start_defer_thread(void) __attribute__((noinline));
 static void stop_defer_thread(void) __attribute__((noinline));
 void urcu_mb_synchronize_rcu(void) __attribute__((noinline));
+#if SCEN == 3
+static void wait_defer(void) __attribute__((noinline, used));
+#endif
 #include "urcu.c"
 #include "rt_api.h"
 
@@ -74,5 +77,34 @@ void seq(void) {
   rcu_defer_unregister_thread();
   rt_assert(nrun == nq, "second unregister flushed the queue");
   rt_cover(how == 0, "rcu_defer_barrier() before the first unregister");
+}
+#endif
+#if SCEN == 3
+/* (c) the background reclaimer's parking decision.  One pass of thr_defer is wait_defer() followed by rcu_defer_barrier(); the thread
+ * itself is not started (start_defer_thread is a stub), the harness runs its passes between the operations of the queuing thread.
+ * A pass is only run while calls are pending: then wait_defer() must not park (a futex wait with nobody left to wake it is reported
+ * by the runtime as "sequential code blocks forever"), and the pass must run everything queued so far. */
+void my_exit(void *r) { (void)r; rt_assert(0, "reclaimer exits although defer_thread_stop was never set"); }
+void seq(void) {
+  rt_assert(rcu_defer_register_thread() == 0, "register");
+  uint64_t prev = 0; unsigned passes = 0;
+  for (int k = 0; k < KSTEPS; k++) {
+    uint32_t op = rt_nondet_u32(); rt_assume(op < 4);
+    if (op == 0) { rcu_defer_barrier_thread(); rt_assert(nrun == nq, "rcu_defer_barrier_thread returns only after all calls queued by this thread have run"); }
+    else if (op == 1) {
+      if (nrun < nq) {
+        wait_defer();
+        rt_assert(uatomic_read(&defer_thread_futex) == 0, "a reclaimer that does not park leaves its futex at 0");
+        rcu_defer_barrier();
+        rt_assert(nrun == nq, "a reclaimer pass that found pending calls runs all of them");
+        passes++;
+      }
+    }
+    else { uint64_t f = pick_fct(prev); q(f, pick_arg()); prev = f; }
+  }
+  rt_cover(passes >= 2, "two reclaimer passes with pending calls");
+  rt_cover(passes >= 1 && URCU_TLS(defer_queue).last_head != 0 && nq > nrun, "calls pending after an earlier reclaimer pass (last_head behind head)");
+  rcu_defer_unregister_thread();
+  rt_assert(nrun == nq, "rcu_defer_unregister_thread returns only after all queued calls have run");
 }
 #endif
